@@ -486,6 +486,8 @@ fn filters(ctx: &mut Ctx) {
         ("other", "len-rest-concat", "len(a); rest(a); a + b; first(a); last(a); pop(b); push(b, a);"),
         ("other", "truthiness", "if a { 1 } else { 2 }; !a; a && b; a || b;"),
         ("other", "compare", "a < b;"),
+        ("other", "map-inside-its-own-key", "let q = map {}; let r = map {}; q[[q]] = 1; q[[r]] = 2; q[[q]] = 3;"),
+        ("other", "map-as-its-own-key", "let q = map {}; let r = map {}; insert(q, r, 1); insert(q, q, 2); contains(q, q); get(q, r);"),
         ("other", "match", "match a { 1 => 1, _ => 2 };"),
         ("other", "index", "a[1][1][1][0]; m1[1][1][1];"),
     ];
